@@ -23,6 +23,7 @@ class ELine:
         self.idx, self.kind, self.d = int(f[1]), f[2], f[3]
         self.producible, self.exact = f[4] == "1", f[5] == "1"
         self.value, self.enc, self.godec = f[6], f[7], f[8]
+        self.behaviour = f[9] if len(f) > 9 else "-"
 
     def go_bytes(self):
         return self.enc if re.fullmatch(r"[0-9a-f]*", self.enc) else None
@@ -32,7 +33,14 @@ class ELine:
         if self.go_bytes() is None:
             return None  # not encodable: nothing to round-trip
         m = re.fullmatch(r"Ok (.*) rest=(-?\d+)", self.godec)
-        return bool(m) and m.group(1) == self.value and m.group(2) in ("0", "-1")
+        return bool(m) and m.group(1) == self.value and m.group(2) in ("0", "-1") and self.behaviour_ok()
+
+    def behaviour_ok(self):
+        """A stored binding restored from its bytes routes like the binding it was made from (same answers on every probe)."""
+        if self.behaviour == "-":
+            return True
+        a, _, b = self.behaviour.partition("/")
+        return a == b
 
     def coq(self):
         if UNREP.search(self.value):
@@ -86,7 +94,7 @@ def parse_pairs(out, name):
     m = re.search(re.escape(name) + r"\s*=\s*(.*?)\n\s*:\s", out, re.S)
     if not m:
         raise vlib.Infra("cannot find %s in coq output:\n%s" % (name, out[-2000:]))
-    return [(int(a), int(b)) for a, b in re.findall(r"\((\d+)%?n?a?t?,\s*(\d+)\)", re.sub(r"\s+", " ", m.group(1)))]
+    return [(int(a), int(b)) for a, b in re.findall(r"\(\s*(\d+)\s*(?:%nat)?\s*,\s*(\d+)\s*\)", re.sub(r"\s+", " ", m.group(1)))]
 
 
 def _eval_e(args):
@@ -211,3 +219,20 @@ class PLine:
 def peer_lines(exe, seed, rounds):
     out = vlib.harness(exe, ["peer", "-seed", str(seed), "-n", str(rounds)], timeout=120)
     return [PLine(l) for l in out.splitlines() if l.startswith("P\t")]
+
+
+def unrecognised(tr, files):
+    """{generated file: detail} for the translated sources whose shape the translator did not understand."""
+    return {g: st.get("detail", "") for g, st in tr["files"].items() if g in files and st.get("status") != "ok"}
+
+
+def report_unrecognised(res, unrec, searched):
+    """Policy: an unrecognised source shape never falls back silently to the hand model / the grammar. After the
+    failing-input search found nothing, it is reported as a violation that names the functions and the obligation."""
+    funcs = sorted(set(re.findall(r"([A-Za-z0-9_.]+(?:\.Read|\.Write|Marshal|Unmarshal|ReadMethod|WriteMethod|readValue091|readValueRabbit|writeValue091|writeValueRabbit|ReadLongstr|ReadFrame|readBytes)[A-Za-z0-9_]*)",
+                                  " ".join(unrec.values()))))
+    what = "; ".join("%s: %s" % (g, d[:500]) for g, d in sorted(unrec.items()))
+    res.violation(dict(kind="unrecognised-shape", obligation="generated = model: the regenerated description of these functions could not be "
+                       "derived from the source, so the theorems no longer speak about the code that exists",
+                       functions=funcs, generated_files=sorted(unrec), detail=unrec, failing_input_search=searched),
+                  False, "translator does not recognise the source shape (obligation generated = model not established): " + what)
